@@ -124,6 +124,37 @@ def g1(ctx):
             site = short(f)
             okb = bool(bchecks) and all(cfg.dominates(bchecks[0].idx, cfg.cnode_of(c))
                                         for c, _ in muts)
+            # ... and it is the "is a built-in" outcome that is rejected: `find(cls) != end()`
+            # true (or `== end()` false, or `count(cls)` non-zero) cannot reach a mutation, the
+            # other outcome can
+            if okb:
+                from .common import unnegate
+                b0 = bchecks[0]
+                base_, pos_ = unnegate(b0.ast)
+                found_when_true = None
+                if base_ is not None:
+                    opn = base_.op if base_.kind == 'BinaryOperator' else (
+                        base_.callee_name()[-2:] if base_.kind == 'CXXOperatorCallExpr' and
+                        (base_.callee_name() or '').startswith('operator') else None)
+                    t_ = base_.text(6)
+                    if opn in ('==', '!=') and 'end()' in t_:
+                        found_when_true = (opn == '!=')
+                    elif base_.kind == 'CXXMemberCallExpr' and base_.callee_name() in ('count', 'contains'):
+                        found_when_true = True
+                    elif opn in ('==', '!=') and 'count(' in t_:
+                        found_when_true = (opn == '!=')
+                if found_when_true is None:
+                    ctx.fail('%s: the built-in type test `%s` is not a membership test this rule can read'
+                             % (inst(f), b0.ast.text(4)))
+                builtin_edge = found_when_true if pos_ else (not found_when_true)
+                mn = {cfg.cnode_of(c) for c, _ in muts}
+                r_b = cfg.forward_reachable([w for (w, lab) in cfg.succ[b0.idx] if lab is builtin_edge])
+                r_o = cfg.forward_reachable([w for (w, lab) in cfg.succ[b0.idx] if lab is (not builtin_edge)])
+                ctx.check(site + '/builtin-rejected', not (mn & r_b) and bool(mn & r_o),
+                          '%s: a built-in type cannot reach a mutation of the maps, any other type can' % inst(f),
+                          '%s: the outcome of `%s` on which the type IS a built-in reaches a mutation '
+                          '(or the other one does not): built-in node types can be re-registered / '
+                          'unregistered, or nothing else can' % (inst(f), b0.ast.text(4)), b0.ast.loc)
             ctx.check(site + '/builtin-check-first', okb,
                       '%s: the built-in type test dominates every mutation of the maps' % inst(f),
                       '%s: a registry map can be mutated without the built-in type test having '
